@@ -303,7 +303,12 @@ pub fn eval_offline(req: &str, ops_s: &str, sets_s: &str) -> Case {
                     Dependencies::Unavailable(_) => txt.clone(),
                     _ => "U <some reason>".to_string(),
                 },
-                Some(m) => format!("A {}", m.iter().map(|(q, s)| format!("{}={}", q, s.to_machine())).collect::<Vec<_>>().join(",")),
+                Some(m) => {
+                    // same canonical order as `txt`: the formatted entries sorted as strings
+                    let mut items: Vec<String> = m.iter().map(|(q, s)| format!("{}={}", q, s.to_machine())).collect();
+                    items.sort();
+                    format!("A {}", items.join(","))
+                }
             };
             if txt != want {
                 set(format!("get_dependencies({}, {}) = {} expected {}", p, v, txt, want));
@@ -379,6 +384,30 @@ pub fn gen_c18(sink: &mut Sink, thorough: bool, seed: u64) {
         sink.push(crate::eval::eval_line(&format!("offline|{}|{}", h.join(";"), sets_s)));
     }
     sink.notes.push(format!("exhaustive: all {} histories of up to {} add_dependencies calls over 2 packages x 2 versions x 3 dependency lists (with overwrites and duplicate entries), every query", hist.len(), if thorough { 3 } else { 2 }));
+    // scale: many versions per package, many packages, many dependencies in one call (a threshold on a count
+    // in the provider shows); two packages whose numbers of matching versions differ by one must still rank apart
+    let scales: &[(u32, u32)] = if thorough { &[(255, 256), (256, 257), (1023, 1024), (1024, 1025), (1100, 1101), (1500, 3000), (4095, 4097)] } else { &[(255, 257), (1024, 1025), (1100, 1101), (1500, 3000)] };
+    for &(na, nb) in scales {
+        let mut h: Vec<String> = vec![];
+        // added in descending order, with an overwrite in the middle
+        for v in (1..=na).rev() {
+            h.push(format!("a@{}:", v));
+        }
+        for v in 1..=nb {
+            h.push(format!("b@{}:{}", v, if v == nb / 2 { "a=u:u" } else { "" }));
+        }
+        h.push(format!("a@{}:b=i1:i1", na / 2));
+        let big_sets = format!("u:u;i2:u;u:e{};i1:i1;i{}:i{} i{}:i{};e1:e{}", na, na, na, nb, nb, na.min(nb));
+        sink.push(crate::eval::eval_line(&format!("offline|{}|{}", h.join(";"), big_sets)));
+    }
+    {
+        // 400 packages of one version; one version with 400 dependency entries (every name twice)
+        let mut h: Vec<String> = (0..400).map(|i| format!("p{}@1:", i)).collect();
+        let ds: Vec<String> = (0..400).map(|i| format!("p{}={}", i % 200, if i < 200 { "u:u" } else { "i1:i1" })).collect();
+        h.push(format!("p7@3:{}", ds.join(",")));
+        sink.push(crate::eval::eval_line(&format!("offline|{}|{}", h.join(";"), "u:u;i1:i1;i3:u")));
+    }
+    sink.notes.push(format!("scale histories: packages with {:?} versions (descending insertion, overwrites), 400 packages, a version with 400 dependency entries", scales));
     let n_random = if thorough { 30_000 } else { 2_000 };
     for _ in 0..n_random {
         let n = 1 + rng.below(8) as usize;
@@ -707,7 +736,7 @@ pub fn eval_det(req: &str, reg_s: &str, root: &str, rv: u32, strat_s: &str) -> C
 
 pub fn gen_c07(sink: &mut Sink, thorough: bool, seed: u64) {
     let mut rng = Rng::new(seed ^ 0x0707);
-    let n = if thorough { 60_000 } else { 4_000 };
+    let n = crate::util::scaled(if thorough { 60_000 } else { 4_000 });
     for i in 0..n {
         let reg = if i % 2 == 1 { crate::solver::layered_registry::<VS>(&mut rng, &[1, 3, 5]) } else { crate::solver::random_registry::<VS>(&mut rng, &[1, 3, 5]) };
         let rvs = reg.versions("root");
